@@ -221,7 +221,7 @@ class Mapper(Client):
             if not cs:
                 return None
             o = {"op": "reck_map", "r": self.pick(list(w.pool["reck"])),
-                 "c": self.pick(cs), "seed": r.randrange(1 << 30)}
+                 "c": self.pick(cs), "seed": self.seed_value()}
             if len(self.own_circuits()) < cfg["max_circuits"] and r.random() < 0.2:
                 o["out"] = w.new_id("c")
             self.last_map = dict(o)
@@ -271,7 +271,7 @@ class Mapper(Client):
             ds = [d for d in w.pool["dist"] if w.meta["dist"][d]["dkind"] != "constant"]
             if not ds:
                 return None
-            return {"op": "dist_seed", "d": self.pick(ds), "seed": r.randrange(1 << 30)}
+            return {"op": "dist_seed", "d": self.pick(ds), "seed": self.seed_value()}
         if k == "script":
             if not cfg.get("faults"):
                 return None
@@ -366,7 +366,7 @@ class Mapper(Client):
         else:
             args = [round(lo, 4), round(hi, 4)]
         o = {"op": "new_dist", "dkind": kind, "args": args,
-             "out": w.new_id("dist"), "seed": r.randrange(1 << 30), "role": role}
+             "out": w.new_id("dist"), "seed": self.seed_value(), "role": role}
         return o
 
     def observe(self, op, out):
